@@ -28,6 +28,7 @@ class LfricInterp(Interp):
         self.extern_handler = self._lfric_call
         self.struct_hints.update({"value": ("real", 0)})
         self.kernel_calls = []        # (guard, name, [arg descriptors], loop stack snapshot)
+        self.kernel_effect = None     # callable(self, kernel name, arg nodes, frame, guard): data effect of a kernel
         self.summarise = False        # True: every DO loop is summarised by a Skolem loop variable
         self.loops_seen = []          # dicts: var, skolem, lo, hi, guard, directive, region
         self.loop_stack = []
@@ -248,6 +249,8 @@ class LfricInterp(Interp):
                     except Unsupported:
                         descr.append(("other", str(a)))
             self.kernel_calls.append((g, name[:-5], descr, list(self.loop_stack), list(self.region_stack)))
+            if self.kernel_effect is not None:
+                self.kernel_effect(self, name[:-5], args, frame, g)
             return True
         return False
 
